@@ -37,7 +37,57 @@ def make(i, tier):
         ex["node"] = rng.randrange(cfg["nodes"])
         if scn["machines"][ex["machine"]]["type"] == "EXPRESS" and rng.random() < 0.4:
             ex["via"] = "sync"
+    add_logging(rng, scn)
     return seed, scn
+
+
+LOGGING = [{"level": "ALL", "destinations": [{"cloudWatchLogsLogGroup": {"logGroupArn": "x"}}]},
+           {"level": "ALL", "includeExecutionData": False, "destinations": [{}]},
+           {"level": "ALL", "includeExecutionData": True, "destinations": [{}]},
+           {"level": "ERROR", "destinations": [{}]}, {"level": "FATAL", "destinations": [{}]}, {"level": "OFF"}]
+
+
+def add_logging(rng, scn, p=0.35):
+    """Some machines get a loggingConfiguration (only the asyncio front end accepts one): what is logged, and whether the
+    data fields are redacted in the log, must not change any surface."""
+    if scn["config"].get("transport", "asyncio") != "asyncio":
+        return
+    for m in scn["machines"].values():
+        if rng.random() < p:
+            m["logging"] = json.loads(json.dumps(rng.choice(LOGGING)))
+
+
+def make_reused(i):
+    """The same execution name run again after the earlier run under that name has ended (names may be re-used once
+    the record is terminal): every surface must then speak of the NEW run only."""
+    seed = common.run_seed(9500000 + i)
+    rng = random.Random(seed)
+    cfg = E.policy_cfg(rng.choice(["canonical", "shuffle", "latency-small"]))
+    cfg["store"] = rng.choice(["file", "redis", "redis"])
+    cfg["transport"] = rng.choice(["asyncio", "asyncio", "blocking"])
+    cfg["nodes"] = rng.choice([1, 2]) if cfg["store"] == "redis" else 1
+    cfg["execution_ttl"] = 3600
+    cfg["tz"] = rng.choice(["UTC0", "SIM-05:30"])
+    d = {"StartAt": "C", "States": {
+        "C": {"Type": "Choice", "Choices": [{"Variable": "$.bad", "BooleanEquals": True, "Next": "F"}], "Default": "T"},
+        "T": {"Type": "Task", "Resource": F + "work", "ResultPath": "$.r", "End": True},
+        "F": {"Type": "Fail", "Error": "E.Rejected", "Cause": "first run said no"}}}
+    order = rng.choice([(True, False), (False, True), (True, True), (False, False)])
+    execs = []
+    for k, bad in enumerate(order):
+        execs.append({"machine": "m", "input": {"bad": bad, "run": k}, "name": "same-name", "at": 5.0 * k,
+                      "node": rng.randrange(cfg["nodes"])})
+    scn = {"machines": {"m": {"definition": d, "type": "STANDARD", "family": "reused-name"}}, "executions": execs,
+           "script": {"work": [{"ok": {"op": "tag"}, "delay": 1.0}]}, "functions": ["work"], "config": cfg}
+    add_logging(rng, scn)
+    return seed, scn
+
+
+def make_children(i):
+    from checks import c02
+    seed, scn, label = c02.make_child(i)
+    scn["config"]["execution_ttl"] = 3600     # the stored records must outlive the run (their expiry is C20's subject)
+    return seed, scn, label
 
 
 F = "arn:aws:rpcmessage:local::function:"
@@ -121,6 +171,16 @@ def run_one(item, extra):
         r = check(scn, seed)
         r.setdefault("probes", {})["rare-end:" + kind] = 1
         return r
+    if isinstance(item, tuple) and item[0] == "reused":
+        seed, scn = make_reused(item[1])
+        r = check(scn, seed)
+        r.setdefault("probes", {})["reused-execution-name"] = 1
+        return r
+    if isinstance(item, tuple) and item[0] == "child":
+        seed, scn, label = make_children(item[1])
+        r = check(scn, seed)
+        r.setdefault("probes", {})["child-launch:" + label.split("/")[0]] = 1
+        return r
     seed, scn = make(item, extra["tier"])
     return check(scn, seed)
 
@@ -165,6 +225,8 @@ def main(argv):
     from checks import minimise as _MIN
     rep.minimiser = lambda f: _MIN.scenario(f, lambda scn, seed: check(scn, seed))
     items = list(range(n)) + [("rare", k) for k in range(260 if tier == "quick" else 13000)]
+    items += [("reused", k) for k in range(120 if tier == "quick" else 6000)]
+    items += [("child", k) for k in range(300 if tier == "quick" else 12000)]
     for r in common.run_batch("checks.c11", "run_one", items, {"tier": tier}):
         rep.absorb(r)
     return rep.finish(
@@ -179,7 +241,10 @@ def main(argv):
              "each other, EXPRESS executions have notifications only; a second slice drives the ends ordinary programs seldom "
              "reach (terminal output over / at the 262144 quota from Pass, Task and Map, execution time-out in Wait and "
              "Task, no Choice matched, bad OutputPath at the end, Fail, intrinsic failure, uncaught task error, ResultPath "
-             "failure, Succeed with OutputPath) through the same rules; distinct = distinct (scenario, interleaving) hashes",
+             "failure, Succeed with OutputPath) through the same rules; a third slice runs the same execution name again after "
+             "the earlier run under it ended (FAILED or SUCCEEDED first), a fourth one parents that launch child executions "
+             "in every form (the child's record, notifications and history are surfaces too); some machines carry a "
+             "loggingConfiguration (ALL / ERROR / FATAL / OFF, with and without includeExecutionData); distinct = distinct (scenario, interleaving) hashes",
         assumptions=["fault-free runs (crash/restart duplicates are C04's subject)",
                      "file-backed configurations use one instance (a file store is not shared between instances)",
                      "pre-emption is placed at I/O boundaries (Redis commands, broker operations), not between bytecodes"])
